@@ -9,6 +9,7 @@ import (
 	"github.com/hashicorp/nodeenrollment"
 	"github.com/hashicorp/nodeenrollment/types"
 	"github.com/hashicorp/nodeenrollment/zzverif/vf"
+	"github.com/hashicorp/nodeenrollment/zzverif/vfs"
 	"google.golang.org/protobuf/proto"
 )
 
@@ -16,7 +17,7 @@ func init() { VfHarnesses["VerifC13RotateFaults"] = VerifC13RotateFaults }
 
 // vfFaulty fails exactly one storage operation: the failAt-th (0-based), with a chosen error kind.
 type vfFaulty struct {
-	inner  *vfStorage
+	inner  *vfs.Storage
 	n      int
 	failAt int
 	kind   int
@@ -68,7 +69,7 @@ func (f *vfFaulty) List(ctx context.Context, m proto.Message) ([]string, error) 
 // symbolic position; success must imply durability, failure must hand out nothing.
 func VerifC13RotateFaults() {
 	ctx := context.Background()
-	inner := &vfStorage{}
+	inner := &vfs.Storage{}
 	t0 := vf.Now()
 	if vf.Bool("has-roots") {
 		pre := &types.RootCertificates{Id: nodeenrollment.RootsMessageId,
